@@ -1,8 +1,16 @@
 --------------------------- MODULE MCZRecoverCopy ---------------------------
 (* C17 (a): the copy of every history ZStorage can reach (commits, undo records, un-creations,    *)
-(* deletions, packed prefixes) answers every revision query exactly as the source.               *)
+(* deletions, packed prefixes) answers every revision query exactly as the source; the copy of    *)
+(* every range src.iterator(start) reproduces the transactions of the range.                      *)
+(* HintRaises / IterNoLoadBlob = TRUE: restore() and the blob copy as the code has them (TLC then *)
+(* exhibits a history and a start for which the range cannot be copied); FALSE: as documented.    *)
 EXTENDS MCZStorage, ZRecover
+CONSTANTS HintRaises, IterNoLoadBlob
 CopyFaithful == CopyAgrees(hist, Oids)
 CopyRestoresDefined == CopyDefined(hist)
 CopyKeepsKinds == CopyExact(hist)
+\* the highest oid is a blob (as the driver concretises blob histories); only a blob-enabled destination
+\* goes through blob.copyTransactionsFromTo, so IterNoLoadBlob = FALSE also stands for a plain destination
+MCBlobs == IF NOid > 1 THEN {NOid - 1} ELSE {}
+RangeCopyFaithful == \A a \in RangeStarts(hist) : RangeCopyAgrees(hist, a, MCBlobs, HintRaises, IterNoLoadBlob)
 =============================================================================
